@@ -135,7 +135,9 @@ class Minimize(Factory, Container):
             if not isinstance(q, numbers.Real):
                 raise TypeError(f"function return value ({q}) must be boolean or number")
 
-            float(q)  # a value that only looks like a number (numpy.timedelta64) fails here
+            # keep the value as a double, like fill.numpy and fromJson do: an integer beyond 2**53 would otherwise come back
+            # from JSON as another number (a value that only looks like a number, numpy.timedelta64, fails here)
+            q = float(q)
             replace = math.isnan(self.min) or q < self.min
 
             # no possibility of exception from here on out (for rollback)
@@ -314,7 +316,8 @@ class Maximize(Factory, Container):
             if not isinstance(q, numbers.Real):
                 raise TypeError(f"function return value ({q}) must be boolean or number")
 
-            float(q)  # a value that only looks like a number (numpy.timedelta64) fails here
+            # keep the value as a double, like fill.numpy and fromJson do (see Minimize)
+            q = float(q)
             replace = math.isnan(self.max) or q > self.max
 
             # no possibility of exception from here on out (for rollback)
